@@ -583,7 +583,7 @@ pub fn check(property: &str, tier: &str, top: u64) -> i32 {
     for ((engine_name, profile), run, why) in &crashes {
         let engine = engines::engine_by_name(engine_name);
         let seed = tape::run_seed(top, &format!("{engine_name}:{profile}"), *run);
-        let sc = engine.generate(profile, seed, tier);
+        let sc = engines::generate(&*engine, profile, seed, tier);
         let path = format!("{replay_dir}/{property}-crash-{seed:016x}.json");
         let file = ReplayFile {
             version: crate::scenario::REPLAY_VERSION,
@@ -682,7 +682,7 @@ pub fn check(property: &str, tier: &str, top: u64) -> i32 {
     }
     for ((engine_name, profile), o) in sample_runs {
         let engine = engines::engine_by_name(engine_name);
-        let sc = engine.generate(profile, o.seed, tier);
+        let sc = engines::generate(&*engine, profile, o.seed, tier);
         let ops_preview: Vec<String> = sc
             .clients
             .iter()
